@@ -145,3 +145,102 @@ def pyd_filter_loop(self, fields, filtered, _it, _seq):
         "kept": forall(range(_it), lambda j: (_seq[j] in filtered) == (not (self.model._type[_seq[j]] is Unknown or self.model._type[_seq[j]] is Null))),
         "sub": forall(filtered, lambda f: exists(range(_it), lambda j: _seq[j] == f)),
     }
+
+
+@contract(ATT + ".field_data", props=["C04", "C11", "C18"])
+class AttrsFieldData:
+    """C04: default exactly when optional (factory=list/dict for optional containers, default=None otherwise);
+    C11: original-name metadata attached iff enabled and the name differs; C18: per-field converter only with converters off."""
+    sorts = {"name": "str", "optional": "bool", "result": "tuple", "data": "dict", "body_kwargs": "dict", "imports": "list"}
+
+    def requires(self, name, meta, optional):
+        return {"optional_is_DOptional": implies(optional, ty_is(meta, DOptional))}
+
+    def ensures(self, name, meta, optional, result):
+        data = as_dict(at(result, 1))
+        base = as_dict(at(GenericModelCodeGenerator.field_data(self, name, meta, optional), 1))
+        inner = meta._type
+        is_list = optional and ty_is(inner, DList)
+        is_dict = optional and ty_is(inner, DDict)
+        pseudo_opt = optional and not is_list and not is_dict and is_class(inner) and issubclass(inner, StringSerializable) and not self.post_init_converters
+        pseudo_req = (not optional) and is_class(meta) and issubclass(meta, StringSerializable) and not self.post_init_converters
+        renamed = (not self.no_meta) and name != sval(base["name"])
+        kw = local("body_kwargs")
+        return {
+            "name_type_kept": data["name"] is base["name"] and data["type"] is base["type"],
+            "factory_list": implies(is_list, "factory" in kw and sval(kw["factory"]) == "list"),
+            "factory_dict": implies(is_dict, "factory" in kw and sval(kw["factory"]) == "dict"),
+            "factory_only_containers": ("factory" in kw) == (is_list or is_dict),
+            "default_none": ("default" in kw) == (optional and not is_list and not is_dict),
+            "default_is_None": implies("default" in kw, sval(kw["default"]) == "None"),
+            "converter_iff_pseudo_and_no_post_init": ("converter" in kw) == (pseudo_opt or pseudo_req),
+            "optional_converter_import": implies(pseudo_opt, exists(as_list(at(result, 0)), lambda imp: sval(at(imp, 0)) == "attr.converters" and sval(at(imp, 1)) == "optional")),
+            "metadata_iff_renamed": ("metadata" in kw) == renamed,
+            "metadata_is_key": implies(renamed, sval(as_dict(kw["metadata"])["J2M_ORIGINAL_FIELD"]) == name and dict_len(kw["metadata"]) == 1),
+            "body_is_attrib_call": sval(data["body"]) == self.ATTRIB.render(kwargs=sort_kwargs(kw, DEFAULT_ORDER)),
+        }
+
+
+@contract(DC + ".field_data", props=["C04", "C11", "C18"])
+class DataclassFieldData:
+    sorts = {"name": "str", "optional": "bool", "result": "tuple", "data": "dict", "body_kwargs": "dict", "imports": "list"}
+
+    def requires(self, name, meta, optional):
+        return {"optional_is_DOptional": implies(optional, ty_is(meta, DOptional))}
+
+    def ensures(self, name, meta, optional, result):
+        data = as_dict(at(result, 1))
+        base = as_dict(at(GenericModelCodeGenerator.field_data(self, name, meta, optional), 1))
+        inner = meta._type
+        is_list = optional and ty_is(inner, DList)
+        is_dict = optional and ty_is(inner, DDict)
+        renamed = (not self.no_meta) and name != sval(base["name"])
+        kw = local("body_kwargs")
+        plain = optional and not is_list and not is_dict and not renamed
+        return {
+            "name_type_kept": data["name"] is base["name"] and data["type"] is base["type"],
+            "body_iff_optional_or_renamed": ("body" in data) == (optional or renamed),
+            "plain_none": implies(plain, sval(data["body"]) == "None"),
+            "factory_list": implies(is_list, "default_factory" in kw and sval(kw["default_factory"]) == "list"),
+            "factory_dict": implies(is_dict, "default_factory" in kw and sval(kw["default_factory"]) == "dict"),
+            "factory_only_containers": implies(not plain and (optional or renamed), ("default_factory" in kw) == (is_list or is_dict)),
+            "default_none": implies(not plain and (optional or renamed), ("default" in kw) == (optional and not is_list and not is_dict) and implies("default" in kw, sval(kw["default"]) == "None")),
+            "metadata_iff_renamed": implies(not plain and (optional or renamed), ("metadata" in kw) == renamed),
+            "metadata_is_key": implies(renamed, sval(as_dict(kw["metadata"])["J2M_ORIGINAL_FIELD"]) == name and dict_len(kw["metadata"]) == 1),
+            "body_is_field_call": implies(not plain and (optional or renamed), sval(data["body"]) == self.DC_FIELD.render(kwargs=sort_kwargs(kw, DEFAULT_ORDER))),
+        }
+
+
+@contract("json_to_models/models/structure.py::sort_fields", props=["C03", "C04"])
+class SortFields:
+    """C03: required fields are emitted before optional ones; every key is in exactly one of the two lists;
+    a key is optional iff its type is Optional[...]"""
+    sorts = {"model_meta": "obj:ModelMeta", "unicode_fix": "bool", "result": "tuple", "fields": "dict", "_type": "dict",
+             "required": "list", "required_2": "list", "optional": "list"}
+
+    def requires(self, model_meta, unicode_fix):
+        return {"str_keys": forall(model_meta._type, lambda k: ty_is(k, str))}
+
+    def ensures(self, model_meta, unicode_fix, result):
+        f = model_meta._type
+        req = as_list(at(result, 0))
+        opt = as_list(at(result, 1))
+        return {
+            "pair": seq_len(result) == 2,
+            "optional_iff_DOptional": forall(f, lambda k: (k in opt) == isinstance(f[k], DOptional)),
+            "required_iff_not": forall(f, lambda k: (k in req) == (not isinstance(f[k], DOptional))),
+            "only_keys": forall(req, lambda k: k in f) and forall(opt, lambda k: k in f),
+            "counts": seq_len(req) + seq_len(opt) == dict_len(f),
+        }
+
+
+@loop("json_to_models/models/structure.py::sort_fields", 1)
+def sort_fields_loop(fields, required, required_2, optional, _it, _seq):
+    return {
+        "opt": forall(range(_it), lambda j: (_seq[j] in optional) == isinstance(fields[_seq[j]], DOptional)),
+        "req": forall(range(_it), lambda j: (_seq[j] in required or _seq[j] in required_2) == (not isinstance(fields[_seq[j]], DOptional))),
+        "sub": forall(optional, lambda k: k in fields) and forall(required, lambda k: k in fields) and forall(required_2, lambda k: k in fields),
+        "count": seq_len(required) + seq_len(required_2) + seq_len(optional) == _it,
+        "seen_only": forall(optional, lambda k: exists(range(_it), lambda j: _seq[j] is k)) and forall(required, lambda k: exists(range(_it), lambda j: _seq[j] is k))
+        and forall(required_2, lambda k: exists(range(_it), lambda j: _seq[j] is k)),
+    }
